@@ -131,6 +131,18 @@ def runTimeCase (id : String) (pipe : SExp) (events : List (List SExp)) (fb : Bo
         let (ev, sfx) := match ev with
           | .atom "rq" :: e => (e, " rclosed=?")
           | _ => (ev, "")
+        -- `ru <event>`: the event, and unsubscribe() from another thread while the probe is called during it: the
+        -- unsubscription takes effect after the event (it waits for the delivery)
+        match ev with
+        | .atom "ru" :: e =>
+          match parseEv e with
+          | some x =>
+            let w1 := (w.step x).step .unsub
+            let delta := w1.log.drop w.log.length
+            s!"{id}.{k} {showOut delta} live={w1.sched.liveTasks.length} tm={w1.sched.timers.length} t={w1.sched.now}"
+              :: go w1 (k + 1) r
+          | none => [s!"{id}.{k} BADEV"]
+        | _ =>
         match parseEv ev with
         | some x =>
           let w0 := w.step x
